@@ -305,7 +305,10 @@ def check(run):
         for f in fx.fn(TIMER + '::' + name, required=False):
             run.touch(f)
             cs = [c for c in f.calls() if (q.callee_name(c) or '') in (TIMER + '::cancel', TIMER + '::expires_at')]
-            run.check(bool(cs) and q.on_all_paths(f, cs), 'R6-ABORT', 'timer-rearm-cancels', TIMER + '::' + name, f.loc(),
+            # accepted alternative (cancel_one written out): with a wait outstanding (queued, handler set) every path reaches fire(operation_aborted)
+            fa = [c for c in f.calls() if (q.callee_name(c) or '') == TIMER + '::fire' and c.get('args') and 'operation_aborted' in q.render(f, c['args'][0])]
+            direct = bool(fa) and not q.exit_reachable_under(f, None, fa, lambda atom: {'m_expired': False, 'm_handler': True}.get(q.render(f, q.strip_casts(atom))))
+            run.check((bool(cs) and q.on_all_paths(f, cs)) or direct, 'R6-ABORT', 'timer-rearm-cancels', TIMER + '::' + name, f.loc(),
                       '%s has a path that does not go through cancel(): the outstanding wait is neither completed nor aborted, and the next async_wait() silently overwrites its handler' % name,
                       'cancel() on every path')
     run.clause('cancelling or re-arming one timer never takes ANOTHER timer\'s wait off the queue: remove_timer erases exactly the timer asked for among equal expiries (shared with C03/C12)')
